@@ -82,7 +82,8 @@ def r1(chk, prog, variant):
     for f, i, p, P in _refcount_accesses(prog):
         n += 1
         chk.touched(f)
-        sig = "%s %s" % (i.op + ((" " + i.x.get("rmw")) if i.op == "atomicrmw" else ""), p)
+        # the signature names the field, not the pointer it is reached through (a renamed parameter is the same access)
+        sig = "%s <node>->%s" % (i.op + ((" " + i.x.get("rmw")) if i.op == "atomicrmw" else ""), p.split("->")[-1])
         if i.op == "atomicrmw":
             ok = i.x.get("rmw") in ("add", "sub") and i.ops[1].kind == "int" and i.ops[1].v == 1 \
                 and i.x.get("ordering") == "seq_cst"
